@@ -8,6 +8,7 @@
    RST_STREAM), so framing (fragmentation, padding, splitting) is factored out. *)
 From Coq Require Import List NArith ZArith Bool Ascii.
 From Martian.H2 Require Import Model Spec Proofs_flow Proofs_oracle Proofs_c08 Proofs_misc Proofs_table Proofs_final Proofs_prio.
+From Martian.C08 Require Import Gen_DestLocks Proofs_gen.
 Import ListNotations.
 
 (* per stream, in order: delivered ++ still held by the receiver's windows = sent *)
@@ -101,6 +102,12 @@ Theorem C08_relay_accepts_valid_partial : forall f y fr,
   front f y fr <> None.
 Proof. exact valid_frame_accepted. Qed.
 Print Assumptions C08_relay_accepts_valid_partial.
+
+(* source tie (regenerated from h2/relay.go on every run): the destination Framer has ONE write
+   buffer shared by three goroutines; all 7 write sites hold destMu, so frames are written whole *)
+Theorem C08_dest_writes_hold_destMu :
+  forallb (fun t => snd t) dest_writes = true /\ (7 <=? List.length dest_writes)%nat = true.
+Proof. exact dest_writes_locked. Qed.
 
 Theorem C08_oracle_is_the_property : forall ls o, c08_ok ls o = true <-> P08 ls o.
 Proof. exact c08_ok_iff. Qed.
